@@ -5,6 +5,7 @@
 // aws_mem_calloc(num 0 | size 0) are fatal preconditions and never generated; the oldsize passed to
 // aws_mem_realloc is always the block's current requested size; out-of-memory is never provoked.
 #include "pbt.hpp"
+#include <map>
 #include "galloc.hpp"
 
 #include <aws/common/allocator.h>
@@ -34,7 +35,7 @@ static Case gen_case() {
     Case c;
     // cfg: wrapped allocator (0 galloc::full, 1 galloc + in-place realloc, 2 galloc::basic), level, frames index,
     //      logger (0 none = the null logger, 1 recording at TRACE, 2 recording logger filtered at DEBUG)
-    c.cfg = {(uint64_t)weighted({25, 35, 40}), (uint64_t)weighted({15, 45, 40}), pick(0, 3), pick(0, 2)};
+    c.cfg = {(uint64_t)weighted({25, 35, 40}), (uint64_t)weighted({15, 45, 40}), pick(0, 3), pick(0, 2), pick(0, 79)};
     c.ops = op_list(80, [] {
         switch (weighted({22, 14, 30, 18, 8, 8})) {
         case 0: return mkop(ACQ, {pick(0, 63), gen_size()});
@@ -111,6 +112,55 @@ static size_t first_diff(const void *p, uint32_t serial, size_t n) {
     for (size_t i = 0; i < n; i++)
         if (q[i] != pat(serial, i)) return i;
     return n;
+}
+
+// Address space without memory: blocks of 4 GiB and more for the accounting of very large requests.  The tracer never
+// touches the payload on acquire / release, so the pages are never faulted in.
+#include <sys/mman.h>
+static std::map<void *, size_t> g_lazy_live;
+static void *lazy_acquire(struct aws_allocator *, size_t size) {
+    void *p = mmap(nullptr, size, PROT_READ | PROT_WRITE, MAP_PRIVATE | MAP_ANONYMOUS | MAP_NORESERVE, -1, 0);
+    if (p == MAP_FAILED) return nullptr;
+    g_lazy_live[p] = size;
+    return p;
+}
+static void lazy_release(struct aws_allocator *, void *p) {
+    auto it = g_lazy_live.find(p);
+    if (it == g_lazy_live.end()) abort();
+    munmap(p, it->second);
+    g_lazy_live.erase(it);
+}
+static struct aws_allocator g_lazy_alloc = {lazy_acquire, lazy_release, nullptr, nullptr, nullptr};
+
+// Sizes at and above 2^32: the byte total is a size_t and has to stay exact.
+static void huge_sizes_epilogue(const Case &c, Ctx &ctx, int level) {
+    static const size_t HUGE[] = {((size_t)1 << 32) - 1, (size_t)1 << 32, ((size_t)1 << 32) + 4096, ((size_t)1 << 33) + 5, 1000};
+    struct aws_allocator *tr = aws_mem_tracer_new(&g_lazy_alloc, nullptr, (enum aws_mem_trace_level)level, 4);
+    PBT_CHECK(tr != nullptr, "tracer_new");
+    void *blk[5] = {nullptr};
+    size_t sum = 0, cnt = 0;
+    for (int i = 0; i < 5; i++) {
+        size_t n = HUGE[(c.c(4) + (uint64_t)i) % 5];
+        blk[i] = aws_mem_acquire(tr, n);
+        if (!blk[i]) continue; // address space exhausted: nothing to say
+        sum += n;
+        cnt++;
+        PBT_CHECK(aws_mem_tracer_bytes(tr) == sum && aws_mem_tracer_count(tr) == cnt, "after acquire(%zu): bytes %zu count %zu, live sum %zu in %zu blocks",
+                  n, aws_mem_tracer_bytes(tr), aws_mem_tracer_count(tr), sum, cnt);
+    }
+    for (int i = 0; i < 5; i++) {
+        int k = (int)((c.c(4) / 5 + (uint64_t)i * 3) % 5);
+        if (!blk[k]) continue;
+        size_t n = g_lazy_live[blk[k]];
+        aws_mem_release(tr, blk[k]);
+        blk[k] = nullptr;
+        sum -= n;
+        cnt--;
+        PBT_CHECK(aws_mem_tracer_bytes(tr) == sum && aws_mem_tracer_count(tr) == cnt, "after release of a %zu-byte block: bytes %zu count %zu, live sum %zu in %zu blocks",
+                  n, aws_mem_tracer_bytes(tr), aws_mem_tracer_count(tr), sum, cnt);
+    }
+    PBT_CHECK(aws_mem_tracer_destroy(tr) == &g_lazy_alloc && g_lazy_live.empty(), "huge-size tracer: destroy / balance");
+    ctx.tag("sizes_ge_4GiB");
 }
 
 static void run(const Case &c, Ctx &ctx) {
@@ -319,6 +369,7 @@ static void run(const Case &c, Ctx &ctx) {
     struct aws_allocator *back = aws_mem_tracer_destroy(tr);
     PBT_CHECK(back == wrapped, "aws_mem_tracer_destroy returned %p, the wrapped allocator is %p", (void *)back, (void *)wrapped);
     aws_logger_set(nullptr);
+    if (level != AWS_MEMTRACE_NONE && c.c(4) % 8 == 7) huge_sizes_epilogue(c, ctx, level);
     PBT_CHECK(galloc::live_blocks() == 0, "%zu blocks (%zu bytes) of the wrapped allocator still held at the end", galloc::live_blocks(), galloc::live_bytes());
     const char *m = nullptr;
     PBT_CHECK(galloc::check_all(&m), "%s", m ? m : "");
